@@ -122,6 +122,19 @@ func isVarIdent(e ast.Expr) (*ast.Ident, bool) {
 	return id, true
 }
 
+// receiverVar returns the variable a method-call expression such as ctx.Done() / ctx.Err() is invoked on.
+func receiverVar(e ast.Expr) (*ast.Ident, bool) {
+	c, ok := e.(*ast.CallExpr)
+	if !ok {
+		return nil, false
+	}
+	sel, ok := c.Fun.(*ast.SelectorExpr)
+	if !ok {
+		return nil, false
+	}
+	return isVarIdent(sel.X)
+}
+
 // access builds simrt.Reads/Writes(site, []string{names}, &a, &b).
 func (rw *rewriter) access(fn string, pos token.Pos, ids []*ast.Ident) ast.Stmt {
 	if len(ids) == 0 {
@@ -173,6 +186,9 @@ func (rw *rewriter) stmt(s ast.Stmt) []ast.Stmt {
 		case *ast.UnaryExpr:
 			if x.Op == token.ARROW {
 				rw.info.Recvs++
+				if id, ok := receiverVar(x.X); ok {
+					return []ast.Stmt{rw.access("Reads", s.Pos(), []*ast.Ident{id}), call("Recv", x.X, str(rw.src(x.X))), s}
+				}
 				return []ast.Stmt{call("Recv", x.X, str(rw.src(x.X))), s}
 			}
 		case *ast.CallExpr:
@@ -222,9 +238,18 @@ func (rw *rewriter) stmt(s ast.Stmt) []ast.Stmt {
 			recv.X = &ast.IndexExpr{X: ast.NewIdent(v), Index: &ast.BasicLit{Kind: token.INT, Value: strconv.Itoa(idx)}}
 			idx++
 		}
+		var rd []*ast.Ident
+		for _, op := range ops {
+			if id, ok := receiverVar(op); ok {
+				rd = append(rd, id)
+			}
+		}
 		args := append([]ast.Expr{ast.NewIdent(hasDefault), names}, ops...)
 		hoist := &ast.AssignStmt{Lhs: []ast.Expr{ast.NewIdent(v)}, Tok: token.DEFINE, Rhs: []ast.Expr{
 			&ast.CallExpr{Fun: &ast.SelectorExpr{X: ast.NewIdent("simrt"), Sel: ast.NewIdent("Select")}, Args: args}}}
+		if st := rw.access("Reads", s.Pos(), rd); st != nil {
+			return []ast.Stmt{st, hoist, s}
+		}
 		return []ast.Stmt{hoist, s}
 	case *ast.AssignStmt:
 		var before, after []ast.Stmt
@@ -273,6 +298,8 @@ func (rw *rewriter) stmt(s ast.Stmt) []ast.Stmt {
 		var rd []*ast.Ident
 		for _, r := range s.Results {
 			if id, ok := isVarIdent(r); ok {
+				rd = append(rd, id)
+			} else if id, ok := receiverVar(r); ok {
 				rd = append(rd, id)
 			}
 			rw.funcLits(r)
